@@ -913,6 +913,7 @@ static int io_point(int fd)
 }
 static void io_log(int s, int out, const void *b, ssize_t r)
 {
+	vx_ev(EV_IO, out, r < 0 ? -(int64_t)errno : (int64_t)r);
 	if (r <= 0) return;
 	unsigned char *dst = out ? g_io[s].out : g_io[s].in; size_t *n = out ? &g_io[s].nout : &g_io[s].nin;
 	size_t k = (size_t)r; if (*n + k > VX_IOLOG) k = VX_IOLOG - *n;
@@ -923,8 +924,8 @@ ssize_t __wrap_read(int fd, void *b, size_t n)
 	int s = io_slot(fd);
 	if (s < 0) return __real_read(fd, b, n);
 	int f = io_point(fd);
-	if (f == 2) { errno = EINTR; return -1; }
-	if (f == 3) { errno = EAGAIN; return -1; }
+	if (f == 2) { errno = EINTR; vx_ev(EV_IO, 0, -EINTR); return -1; }
+	if (f == 3) { errno = EAGAIN; vx_ev(EV_IO, 0, -EAGAIN); return -1; }
 	ssize_t r = __real_read(fd, b, (f == 1 && n > 1) ? 1 : n);
 	io_log(s, 0, b, r);
 	if (g_trace) fprintf(stderr, "[vx]       read(%d, %zu) = %zd%s\n", fd, n, r, f ? " (injected short read)" : "");
@@ -935,8 +936,8 @@ ssize_t __wrap_write(int fd, const void *b, size_t n)
 	int s = io_slot(fd);
 	if (s < 0) return __real_write(fd, b, n);
 	int f = io_point(fd);
-	if (f == 2) { errno = EINTR; return -1; }
-	if (f == 3) { errno = EAGAIN; return -1; }
+	if (f == 2) { errno = EINTR; vx_ev(EV_IO, 1, -EINTR); return -1; }
+	if (f == 3) { errno = EAGAIN; vx_ev(EV_IO, 1, -EAGAIN); return -1; }
 	ssize_t r = __real_write(fd, b, (f == 1 && n > 1) ? 1 : n);
 	io_log(s, 1, b, r);
 	if (g_trace) fprintf(stderr, "[vx]       write(%d, %zu) = %zd%s\n", fd, n, r, f ? " (injected short write)" : "");
